@@ -19,6 +19,9 @@ pub enum Damage {
     Footer { byte: u8, bit: u8 },
     /// overwrite bytes inside an index segment: 0 = time index, 1 = lexical (Tantivy) segment, 2 = vector index
     Segment { which: u8, at: u16, len: u8, zero: bool },
+    /// bytes behind the commit footer, as an interrupted extension of the file (in-place log growth)
+    /// or a torn append leaves them
+    Tail { len: u16, zero: bool },
 }
 
 #[derive(Debug, Clone, Serialize, Deserialize)]
@@ -88,6 +91,17 @@ fn apply_damage(path: &std::path::Path, d: &Damage) -> Result<Option<String>, Fa
             let i = start + (*byte as usize % flen.min(56));
             bytes[i] ^= 1 << (bit % 8);
             format!("commit footer byte +{}", i - start)
+        }
+        Damage::Tail { len: l, zero } => {
+            let n = (*l as usize).max(1);
+            let mut x = 0x9e37_79b9_7f4a_7c15u64 ^ n as u64;
+            for _ in 0..n {
+                x ^= x << 13;
+                x ^= x >> 7;
+                x ^= x << 17;
+                bytes.push(if *zero { 0 } else { (x >> 24) as u8 });
+            }
+            format!("{n} {} bytes appended behind the commit footer", if *zero { "zero" } else { "garbage" })
         }
         Damage::Segment { which, at, len: l, zero } => {
             let fs = match find_last_valid_footer(&bytes) {
@@ -232,6 +246,7 @@ pub fn check(c: &Case) -> CheckResult {
         Damage::TocChecksumField { .. } => "damage_toc_checksum_field",
         Damage::Footer { .. } => "damage_footer",
         Damage::Segment { which, .. } => ["damage_time_index", "damage_lex_segment", "damage_vec_index"][*which as usize % 3],
+        Damage::Tail { .. } => "bytes_behind_footer",
     };
     Ok(CaseInfo::nontrivial(needs_repair)
         .class_if(damage.is_some(), dk)
@@ -260,6 +275,7 @@ fn damage() -> impl Strategy<Value = Damage> {
         2 => (any::<u8>(), 0u8..8).prop_map(|(byte, bit)| Damage::TocChecksumField { byte, bit }),
         2 => (any::<u8>(), 0u8..8).prop_map(|(byte, bit)| Damage::Footer { byte, bit }),
         4 => (0u8..3, any::<u16>(), 1u8..64, any::<bool>()).prop_map(|(which, at, len, zero)| Damage::Segment { which, at, len, zero }),
+        2 => (prop_oneof![1u16..200, 200u16..60000], any::<bool>()).prop_map(|(len, zero)| Damage::Tail { len, zero }),
     ]
 }
 
@@ -394,7 +410,7 @@ pub fn check_crash_left(c: &CrashCase21) -> CheckResult {
 }
 
 pub fn build(ctx: &Ctx) -> Vec<Box<dyn Arm>> {
-    ctx.rule("files produced by generated histories (plain/embedded/chunked puts, updates, deletes, commits, reopen), taken either as a process kill leaves them (file copied while the handle is alive: acknowledged records still pending in the log) or after a clean close, then damaged in ONE repairable structure (kill-left files: only in the header pointer / header TOC checksum; index, footer and TOC-field damage is applied to cleanly closed files only, one cause per input) (header footer pointer; header TOC checksum; the TOC's own checksum field; commit footer magic/length/hash/generation; bytes inside the time index / a lexical segment / the vector index) or left undamaged; doctor with all 2^5 combinations of rebuild_time/rebuild_lex/rebuild_vec/vacuum/dry_run; oracle: dry_run leaves the bytes unchanged; otherwise doctor returns a report that is not Failed, the file opens and the reference model of every acknowledged operation (committed or pending) matches the frame table, contents and (unless the vector segment was the damaged structure) embeddings; verify(deep) == Passed; an immediate second run with default options reports Clean and changes no frame; non-trivial = the input needed a repair (damage or pending records)");
+    ctx.rule("files produced by generated histories (plain/embedded/chunked puts, updates, deletes, commits, reopen), taken either as a process kill leaves them (file copied while the handle is alive: acknowledged records still pending in the log) or after a clean close, then damaged in ONE repairable structure (kill-left files: only in the header pointer / header TOC checksum; index, footer and TOC-field damage is applied to cleanly closed files only, one cause per input) (header footer pointer; header TOC checksum; the TOC's own checksum field; commit footer magic/length/hash/generation; bytes inside the time index / a lexical segment / the vector index; zero or garbage bytes behind the commit footer, as an interrupted file extension or torn append leaves them) or left undamaged; doctor with all 2^5 combinations of rebuild_time/rebuild_lex/rebuild_vec/vacuum/dry_run; oracle: dry_run leaves the bytes unchanged; otherwise doctor returns a report that is not Failed, the file opens and the reference model of every acknowledged operation (committed or pending) matches the frame table, contents and (unless the vector segment was the damaged structure) embeddings; verify(deep) == Passed; an immediate second run with default options reports Clean and changes no frame; non-trivial = the input needed a repair (damage or pending records)");
     ctx.assume("embeddings live only in the vector index: when that segment itself is destroyed their loss is not asserted; log damage is outside the property's list");
     ctx.rule("arm crash_left: histories recorded by the C02 engine; a few syscall prefixes strictly inside an API call (with >= 1 call acknowledged) are materialised and handed to doctor with generated options; oracle: doctor does not fail on a file that Memvid::open accepts, the result opens, no acknowledged active frame is lost or altered, verify(deep) Passed, second run Clean; inputs that Memvid::open itself rejects (C02's listed in-place windows) may be declined");
     let t = ctx.tier;
